@@ -16,7 +16,7 @@ Module for utilities.
 import sys
 import copy as cp
 from typing import Any, List, Optional, Text
-from threading import Timer
+from threading import Timer, Lock
 from time import time
 from datetime import timedelta
 
@@ -239,6 +239,8 @@ class ProgressBar(BaseProgress):
     def __init__(self, max_value, title = None):
         """Create a ProgressBar object. """
         self._timer = None
+        self._lock = Lock()
+        self._finished = False
         self._start_time = time()
         self._file = sys.stdout
         self.max_value = max_value
@@ -250,9 +252,17 @@ class ProgressBar(BaseProgress):
         """Context enter. """
         if self.title is not None:
             print(self.title, file=self._file, flush=True)
-        self._timer = Timer(1.0, self._print_status)
-        self._timer.start()
+        with self._lock:
+            self._finished = False
+            self._timer = Timer(1.0, self._refresh)
+            self._timer.start()
         return self
+
+    def _refresh(self):
+        """Timer callback: print the status unless the bar has finished. """
+        with self._lock:
+            if not self._finished:
+                self._print_status()
 
     def _print_status(self):
         if self._step is None:
@@ -278,21 +288,26 @@ class ProgressBar(BaseProgress):
 
     def exit(self):
         """Context exit. """
-        self._timer.cancel()
-        self._print_status()
-        delta_t = time() - self._start_time
-        print("\nElapsed time: {:.1f}s".format(delta_t),
-              file=self._file,
-              flush=True)
+        with self._lock:
+            self._finished = True
+            self._timer.cancel()
+            self._print_status()
+            delta_t = time() - self._start_time
+            print("\nElapsed time: {:.1f}s".format(delta_t),
+                  file=self._file,
+                  flush=True)
 
     def update(self, step=None):
         """Update the progress. """
-        self._timer.cancel()
-        self._timer = Timer(1.0, self.update)
-        self._timer.start()
-        if step is not None:
-            self._step = step
-        self._print_status()
+        with self._lock:
+            if self._finished:
+                return
+            self._timer.cancel()
+            self._timer = Timer(1.0, self.update)
+            self._timer.start()
+            if step is not None:
+                self._step = step
+            self._print_status()
 
 
 PROGRESS_DICT = {
